@@ -459,6 +459,7 @@ def plan_C16(prop, tier):
     lmax = 5 if tier == "quick" else 6
     stds = [("g++", "11"), ("g++", "17"), ("g++", "20"), ("clang++", "20")] if tier == "quick" else \
            [("g++", s) for s in ("11", "14", "17", "20", "2b")] + [("clang++", s) for s in ("11", "14", "17", "20", "2b")]
+    stds = [cs for cs in stds if toolchain_ok(*cs)]
     bins = [(Bin("cmp-%s-std%s" % (c.replace("+", "p"), s), "cmp_main.cpp", std=s, cxx=c), [lmax]) for c, s in stds]
     # non-member accessors / swap on every state of the run-time graphs
     jobs = w1_jobs(tier, grid(("NM", "TR"), (0, 2), (1,)), G_APPEND1 | G_ERASE | G_CAP | G_INSERT1, 0)
@@ -779,6 +780,24 @@ def arch_part(tier):
     return cov, viol, errs, "archetype grid: %d (operation, archetype) cases" % n
 
 
+_TOOLCHAIN = {}
+
+
+def toolchain_ok(cxx, std):
+    """False if the (compiler, -std) pair is unusable: std::is_constant_evaluated() true at run time
+    (clang++ 14 + libstdc++ 12 with -std=c++2b). Such builds are excluded and named in the evidence."""
+    key = (cxx, std)
+    if key not in _TOOLCHAIN:
+        b = Bin("toolchain-probe-%s-std%s" % (cxx.replace("+", "p"), std), "toolchain_probe.cpp", std=std, cxx=cxx, opt="-O1")
+        ok, log = b.build()
+        good = False
+        if ok:
+            r = subprocess.run([b.path()], stdout=subprocess.PIPE, text=True)
+            good = '"is_constant_evaluated_at_run_time":0' in r.stdout
+        _TOOLCHAIN[key] = good
+    return _TOOLCHAIN[key]
+
+
 def rebuild_as(b, cxx, std, disable_concepts=False):
     """The same harness binary under another compiler / standard."""
     defs = list(b.defines) + (["GCH_DISABLE_CONCEPTS"] if disable_concepts else [])
@@ -793,6 +812,8 @@ def plan_C17(prop, tier):
     else:
         builds = [(c, s_, False) for c in ("g++", "clang++") for s_ in ("11", "14", "17", "20", "2b")] + \
                  [(c, s_, True) for c in ("g++", "clang++") for s_ in ("20", "2b")]
+    excluded = [(c, s_) for (c, s_, dc) in builds if not toolchain_ok(c, s_)]
+    builds = [bd for bd in builds if toolchain_ok(bd[0], bd[1])]
     base = []
     for cfg in (("NM", 0, 1), ("NM", 2, 1), ("TM", 2, 1), ("TR", 2, 1), ("INT", 2, 0), ("NM", 3, 0), ("MO", 2, 1)):
         # (the differential is about standards/compilers, not depth: quick bounds in both tiers,
@@ -850,6 +871,7 @@ def plan_C17(prop, tier):
     rep["coverage"]["cross_standard"] = table
     rep["coverage"]["builds"] = ["%s -std=c++%s%s" % (c, s_, " -DGCH_DISABLE_CONCEPTS" if dc else "") for c, s_, dc in builds]
     rep["coverage"]["element_operation_count_differences_informational"] = info_diffs
+    rep["coverage"]["builds_excluded_toolchain_defect"] = sorted(set("%s -std=c++%s (std::is_constant_evaluated() is true at run time)" % x for x in excluded))
     rep["summary"] += "; %d configurations x %d builds, gating traces %s" % (
         len(base), len(builds), "identical" if all(b["identical"] for r in table for b in r["builds"]) else "DIFFER")
     return rep
@@ -867,6 +889,7 @@ def plan_C08(prop, tier):
     ns = (0, 1, 2, 3)
     pairs = ((0, 0), (2, 2), (0, 2), (2, 0), (1, 3), (3, 1)) if tier == "quick" else tuple((a, b) for a in ns for b in ns)
     stds = [("g++", "20"), ("clang++", "20")] if tier == "quick" else [("g++", "20"), ("g++", "2b"), ("clang++", "20"), ("clang++", "2b")]
+    stds = [cs for cs in stds if toolchain_ok(*cs)]
     jobs, meta = [], []
     for n in ns:
         b = w1bin("NM", n, 0)
